@@ -43,6 +43,24 @@ GRIDS = [(1, 2), (2, 1), (2, 2), (2, 3), (3, 2), (2, 4), (4, 2), (1, 5), (3, 1)]
 CONST_PATH = os.path.join(os.path.dirname(os.path.dirname(os.path.abspath(__file__))), 'constants.json')
 KINDS = ('affine', 'affine', 'quadratic', 'ridge', 'ridge', 'ridge')
 
+# Proposal for constants.json:"C03_tol" (NOT in force until copied there; calibrated on 8 quick seeds = 5e4
+# cases, verified quiet with it on the 8 seeds): default configurations 1e-6 (worst ratio <= 3.2e-12), except the
+# default complex rule of order 4 (single estimate, h ~ 5e-4: worst 0.13 -> weak); user step configurations only
+# with >= 8 estimates (1e-2); everything else weak.
+PROPOSED_C03_TOL = {
+    'backward|1|k1|user': None, 'backward|1|k2-3|user': None, 'backward|1|k4-7|user': None,
+    'backward|1|k8+|default-order2': 1e-06, 'backward|1|k8+|default-order4': 1e-06,
+    'backward|1|k8+|user': 0.01, 'central|1|k1|user': None, 'central|1|k2-3|user': None,
+    'central|1|k4-7|user': None, 'central|1|k8+|default-order2': 1e-06, 'central|1|k8+|default-order4': 1e-06,
+    'central|1|k8+|user': 0.01, 'complex|1|k1|default-order2': 1e-06, 'complex|1|k1|default-order4': None,
+    'complex|1|k1|user': None, 'complex|1|k2-3|user': None, 'complex|1|k4-7|user': None,
+    'complex|1|k8+|user': 0.01, 'forward|1|k1|user': None, 'forward|1|k2-3|user': None,
+    'forward|1|k4-7|user': None, 'forward|1|k8+|default-order2': 1e-06, 'forward|1|k8+|default-order4': 1e-06,
+    'forward|1|k8+|user': 0.01, 'multicomplex|1|k1|default-order2': 1e-06, 'multicomplex|1|k1|user': None,
+    'multicomplex|1|k2-3|default-order4': 1e-06, 'multicomplex|1|k2-3|user': None,
+    'multicomplex|1|k4-7|user': None, 'multicomplex|1|k8+|user': 0.01,
+}
+
 
 def load_table():
     path = os.environ.get('NVERIF_CONSTANTS', CONST_PATH)
